@@ -8,7 +8,7 @@ git -C /repo worktree add -q --detach "$W" HEAD || exit 2
 ( cd "$W" && git apply "$P" ) || { echo "patch does not apply"; git -C /repo worktree remove --force "$W"; exit 2; }
 cd /verif
 for c in "$@"; do
-  out=$(KNEE_REPO="$W" bin/check "$c" --tier quick 2>&1); rc=$?
+  out=$(KNEE_REPO="$W" VERIF_EVIDENCE_DIR="$W/.verif-evidence" bin/check "$c" --tier quick 2>&1); rc=$?
   echo "== $c rc=$rc :: $(echo "$out" | grep -m1 -E 'VIOLATION|INFRA' )"
 done
 git -C /repo worktree remove --force "$W"
